@@ -1,6 +1,7 @@
 package osutil
 
 import (
+	"errors"
 	"io"
 	"os"
 )
@@ -18,6 +19,14 @@ func CopyFile(srcPath, destPath string) (int64, error) {
 		return 0, err
 	}
 	defer src.Close()
+
+	// os.Create truncates: if destPath names the source itself (same path, symlink, hard link)
+	// the content would be gone before it is read.
+	if srcInfo, err := src.Stat(); err != nil {
+		return 0, err
+	} else if destInfo, err := os.Stat(destPath); err == nil && os.SameFile(srcInfo, destInfo) {
+		return 0, errors.New("osutil: CopyFile: " + srcPath + " and " + destPath + " are the same file")
+	}
 
 	dest, err := os.Create(destPath)
 	if err != nil {
